@@ -10,7 +10,7 @@ LEVEL = 'exploration'
 RULE = ('(i) G1: programs derived from ECMA-262 5.1 Annex A with the dictated tree known by construction, '
         'rendered under 4 layout levels; (ii) G2: every string of <= n tokens (n=3 quick, 4 thorough) over a '
         '29-token alphabet, joined by single spaces; (iii) G3: single-token mutations (delete/insert/replace/'
-        'duplicate/swap) of G1 outputs and of the repository test snippets. Oracle: acceptance equals the '
+        'duplicate/swap) and subtree-level mutations (the token range of a node duplicated, deleted, swapped with or replaced by another node\'s) of G1 outputs and of the repository test snippets. Oracle: acceptance equals the '
         'reference front end R1 (both directions) and canonical trees are equal (for G1 also equal to the '
         'constructed tree). non-trivial = both accept and the tree has >= 4 node kinds and depth >= 3, or R1 '
         'rejects after consuming >= 2 tokens; distinct by source text')
@@ -182,6 +182,16 @@ def run_shard(shard):
                 p = draw(gen_program.program_strategy(max_fuel=4, layout_levels=(1,)))
                 toks = [t.text for t in p['toks']]
                 src = 'g1'
+            if draw(st.integers(0, 2)) == 0:
+                # subtree-level mutation (a clause, property, statement, operand ... duplicated, deleted,
+                # swapped or replaced): reaches the "at most one" / "exactly one" rules of the grammar
+                try:
+                    rf = ref_es5.parse(' '.join(toks))
+                except ref_es5.RefSyntaxError:
+                    rf = None
+                if rf is not None:
+                    kind_, out = gen_tokens.mutate_tree(draw, rf)
+                    return src, kind_, ' '.join(out)
             kind_, out = gen_tokens.mutate(draw, toks)
             return src, kind_, ' '.join(out)
 
